@@ -30,6 +30,7 @@ CLAUSES = {
     "C02": {"P_UsedP", "P_UsedPOk", "C_CreditIsP"},
     "C17": {"P_StepsLeft", "P_NotTooMany", "C_StepCounter", "C_NoOverrun", "F_Done", "F_StepsExact", "F_Count", "F_Record",
             "F_Unchanged", "P_Counters", "R_Continues"},
+    "C14": {"C_StoreLive", "C_StoreHasLive", "C_StoreInitial", "C_StoreLag"},
     "C07": {"P_StreamsDistinct", "P_StreamsFresh", "P_StreamFunction", "P_StreamSeed", "C_NoForeign"},
     "C06": {"P_Reissue", "P_ReissueRecorded", "P_LockedList", "C_LockedList", "R_Restore", "R_Frac", "R_Weights",
             "R_HasRecord"},
